@@ -198,20 +198,48 @@ func zzC05Assoc() {
 
 func zzC05ReportRsp() {
 	z := zzMkIso()
-	// the report being answered was sent for A: (CP SEID of A, peer of A)
-	// assumption (stated): B does not have both the same CP SEID and the same peer
-	if z.na == z.nb {
-		zzAssume(z.cpA != z.cpB)
+	// a Session Report Response with SEID 0 answers a report that named a control-plane SEID; it comes
+	// from node 0's address, node 1's address or a third endpoint on node 0's host, and the report it
+	// answers named A's or B's control-plane SEID. It is "for" a session only if that session has this
+	// control-plane SEID AND belongs to the node at that address.
+	var src net.Addr
+	switch nondetChoice("response-from", 3) {
+	case 0:
+		src = z.addr(0)
+	case 1:
+		src = z.addr(1)
+	default:
+		src = zzAddrA2
 	}
-	req := message.NewSessionReportRequest(0, 0, z.cpA, 0, 0, ie.NewReportType(0, 0, 1, 0))
+	r := z.cpA
+	if nondetBool("report-named-b-cpseid") {
+		r = z.cpB
+	}
+	forA := r == z.cpA && src.String() == z.addr(z.na).String()
+	forB := r == z.cpB && src.String() == z.addr(z.nb).String()
+	if forB {
+		// addressed to B (or to both: then 'the session the report was sent for' is not determined by
+		// the message - stated as outside): B is not a bystander of this message
+		zzCover("C05.reportrsp.for-b")
+		return
+	}
+	req := message.NewSessionReportRequest(0, 0, r, 0, 0, ie.NewReportType(0, 0, 1, 0))
 	rsp := message.NewSessionReportResponse(0, 0, 0, 0, 0, ie.NewCause(ie.CauseSessionContextNotFound))
 	from := len(z.dp.calls)
-	z.s.handleSessionReportResponse(rsp, z.addr(z.na), req)
+	z.s.handleSessionReportResponse(rsp, src, req)
 	_, errA := z.s.lnode.Sess(2)
-	zzAssert("C05.reportrsp.a-removed", errA != nil)
-	z.callsOnly(from, 2, "reportrsp")
+	if forA {
+		zzAssert("C05.reportrsp.a-removed", errA != nil)
+		z.callsOnly(from, 2, "reportrsp")
+		zzCover("C05.reportrsp.done")
+	} else {
+		// nobody's: no session has this control-plane SEID at that endpoint
+		zzAssert("C05.reportrsp.nobody.a-kept", errA == nil)
+		zzAssert("C05.reportrsp.nobody.no-data-plane-call", len(z.dp.calls) == from)
+		zzAssert("C05.reportrsp.nobody.a-rules-kept", z.dp.rulesOf(2) == 5)
+		zzCover("C05.reportrsp.nobody")
+	}
 	z.bIntact("reportrsp")
-	zzCover("C05.reportrsp.done")
 }
 
 func zzC05Establish() {
